@@ -1,5 +1,6 @@
 import HbsModel.Registry
 import HbsModel.Lemmas.RM
+import HbsModel.Lemmas.Induct
 /-
   C05  Rendering any compiled template on any data returns Ok or a RenderError.
   Panic sites of the Rust are explicit `panic` outcomes of the model; each is shown unreachable.
@@ -101,5 +102,82 @@ theorem render_is_pure (r : Registry) (fs : FS) (n1 n2 : Str) (d1 d2 : Json) :
 theorem fuel_zero_is_fuel (reg : Registry) (root : Json) (t : Tmpl) (rc : RC) (out : Out) :
     renderTemplate reg root 0 t rc out = .fuel := by
   simp [renderTemplate]
+
+end Hbs.C05
+
+/-! ### the whole renderer never panics: for EVERY AST (not only parser outputs), data, registry
+    configuration, render state and fuel (generic induction principle of Lemmas/Induct) -/
+namespace Hbs.C05
+open Hbs RM
+
+def NoPanic {α : Type} (x : RM α) : Prop := ∀ rc out s, x rc out ≠ .panic s
+
+theorem bnd_noPanic {α β : Type} (x : RM α) (f : α → RM β) (hx : NoPanic x) (hf : ∀ a, NoPanic (f a)) :
+    NoPanic (RM.bnd x f) := by
+  intro rc out s
+  simp only [RM.bnd]
+  cases hr : x rc out with
+  | ok a rc1 o1 => exact hf a rc1 o1 s
+  | err e o => simp
+  | panic p => exact absurd hr (hx rc out p)
+  | fuel => simp
+
+theorem write_noPanic (s : Str) : NoPanic (RM.write s) := by
+  intro rc out p
+  unfold RM.write
+  split
+  · simp
+  · split <;> simp
+
+theorem mapErr_noPanic {α : Type} (x : RM α) (f : RenderError → RenderError) (hx : NoPanic x) :
+    NoPanic (RM.mapErr x f) := by
+  intro rc out s
+  unfold RM.mapErr
+  cases hr : x rc out with
+  | ok a rc1 o1 => simp
+  | err e o => simp
+  | panic p => exact absurd hr (hx rc out p)
+  | fuel => simp
+
+theorem captured_noPanic {α : Type} (x : RM α) (hx : NoPanic x) : NoPanic (RM.captured x) := by
+  intro rc out s
+  unfold RM.captured
+  cases hr : x rc {} with
+  | ok a rc1 o1 => simp
+  | err e o => simp
+  | panic p => exact absurd hr (hx rc {} p)
+  | fuel => simp
+
+theorem cleanup_noPanic (x : RM Unit) (c : RC → RC) (hx : NoPanic x) : NoPanic (RM.withCleanup x c) := by
+  intro rc out s
+  unfold RM.withCleanup
+  cases hr : x rc out with
+  | ok a rc1 o1 => simp
+  | err e o => simp
+  | panic p => exact absurd hr (hx rc out p)
+  | fuel => simp
+
+/-- "does not panic" as a closed predicate; the only leaf that mentions `panic` is `navigate`,
+    where both sites are unreachable (navigate_never_panics) -/
+def noPanicPred : RMPred where
+  P := fun x => NoPanic x
+  ret := fun a rc out s => by simp
+  bnd := bnd_noPanic
+  get := fun rc out s => by simp
+  modify := fun f rc out s => by simp
+  throw := fun e rc out s => by simp
+  outOfFuel := fun rc out s => by simp
+  write := write_noPanic
+  mapErr := mapErr_noPanic
+  captured := captured_noPanic
+  cleanup := cleanup_noPanic
+  navigate := fun root segs blocks rc out s => navigate_never_panics root segs blocks rc out s
+
+/-- rendering ANY template AST on ANY data in ANY state with ANY registry of the modelled helpers and
+    decorators returns output, a RenderError, or runs out of fuel (unbounded partial recursion) –
+    it never reaches one of the Rust panic sites. -/
+theorem render_never_panics (reg : Registry) (root : Json) (fuel : Nat) (t : Tmpl) (rc : RC) (out : Out) (s : String) :
+    renderTemplate reg root fuel t rc out ≠ .panic s :=
+  (noPanicPred.all reg root fuel).renderTemplate t rc out s
 
 end Hbs.C05
